@@ -259,6 +259,16 @@ def mon_single(st, ctx, goodwe):
             except Exception: data = run(inv.read_runtime_data())
             _compare_single(st, inv, data, cfg)
             if fill is not None: break
+    # optional blocks refused by an inverter that has a battery / a second battery / MPPT trackers: after the poll, every id still listed is readable singly
+    for tag, serial, rated, sub in (('205 three-phase', ET_SERIALS['205 three-phase'], 10000, ('battery',)), ('745 HV', ET_SERIALS['745 HV'], 15000, ('battery', 'mppt')),
+                                    ('2-battery 3-MPPT', ET_SERIALS['2-battery 3-MPPT'], 25000, ('battery2',)), ('745 HV', ET_SERIALS['745 HV'], 20000, ('mppt', 'meter_ext2'))):
+        inv, sim = make_et(goodwe, serial, rated, sub, 2, seed=ctx.rng.randrange(1 << 30))
+        cfg = dict(family='ET', model=tag, serial=serial, rated_power=rated, refused=list(sub), battery_mode=2, history='two polls, then read_sensor of every listed id')
+        run(inv.read_device_info())
+        for _ in range(2):
+            try: data = run(inv.read_runtime_data())
+            except Exception: data = {}      # noqa
+        _compare_single(st, inv, data, cfg)
     # capability changes between the calls: battery disappears, a single read, battery comes back
     for tag, serial in list(ET_SERIALS.items())[:3]:
         inv, sim = make_et(goodwe, serial, 10000, (), 0, seed=ctx.rng.randrange(1 << 30))
@@ -316,6 +326,10 @@ def _compare_single(st, inv, data, cfg, only_prefix=None):
         except ValueError as ex:
             if bulk is not None:
                 st.violation('single-read-fails', f'read_sensor({s.id_!r}) raises ValueError({ex}) but the bulk read reports {bulk!r}', dict(config=cfg, sensor=s.id_))
+            elif s.id_ not in data and 'nknown' in str(ex):
+                # listed by sensors(), not reported by the bulk read (so not "reported as None"), and the single read calls it an unknown sensor
+                st.violation('listed-sensor-unknown', f'read_sensor({s.id_!r}) raises ValueError({ex}) for an id that sensors() lists (the bulk read does not report it at all)',
+                             dict(config=cfg, sensor=s.id_))
             continue
         except Exception as ex:     # noqa
             st.violation('single-read-fails', f'read_sensor({s.id_!r}) raises {type(ex).__name__}: {ex}', dict(config=cfg, sensor=s.id_))
@@ -554,6 +568,37 @@ def mon_readonly(st, ctx, goodwe):
                 if not isinstance(raised, ValueError):
                     st.violation('no-valueerror', f'{name}: write_setting({x.id_!r}, 1) of an id no longer listed by settings() did not raise ValueError (raised {raised!r})',
                                  dict(object=name, call='write_setting', args=[x.id_, 1], history='read refused with ILLEGAL DATA ADDRESS'))
+
+
+def _readonly_connect_failures(st, ctx, goodwe):
+    """end-to-end only: Modbus/TCP objects, a legitimate write, then every monitoring call with its FIRST connection attempt refused (the protocol retries and
+    connects): whatever is transmitted for the monitoring call is a read"""
+    for fam, mk in (('ET tcp', lambda: make_et(goodwe, ET_SERIALS['205 three-phase'], 10000, (), 2, seed=ctx.rng.randrange(1 << 30), arm_fw=22, port=502)),
+                    ('DT tcp', lambda: make_dt(goodwe, DT_SERIALS['three-phase'], seed=ctx.rng.randrange(1 << 30), port=502))):
+        for ka in (False, True):
+            inv, sim = mk()
+            if ka: inv.set_keep_alive(True)
+            run(inv.read_device_info())
+            for outcomes in (['refused'], ['unreach'], ['refused', 'refused']):
+                try: run(inv.write_setting('grid_export_limit', 100 + len(outcomes)))
+                except Exception: pass      # noqa
+                calls = [('get_grid_export_limit', ()), ('read_runtime_data', ()), ('read_setting', ('grid_export_limit',))] + ([('get_operation_mode', ()), ('read_settings_data', ())] if fam.startswith('ET') else [])
+                for meth, args in calls:
+                    if ka:
+                        try: run(inv._protocol.close())          # so that the next call has to connect
+                        except Exception: pass      # noqa
+                    SI.E2E['connect_script'] = list(outcomes)
+                    n0 = len(sim.log)
+                    try: run(getattr(inv, meth)(*args))
+                    except Exception: pass          # noqa
+                    st.case((fam, ka, tuple(outcomes), meth))
+                    wr = [e for e in sim.log[n0:] if e in sim.writes()]
+                    if wr:
+                        st.violation('read-api-writes', f'{fam} keep-alive {ka}: {meth}{args} after a legitimate write, first connection attempt(s) {outcomes}, transmitted a WRITE request: '
+                                                        f'{wr[0]["raw"].hex()}', dict(object=fam, keep_alive=ka, call=meth, args=list(args), connect_outcomes=outcomes, request=wr[0]['raw'].hex()))
+                    # the write for the next round is a legitimate one again
+                    try: run(inv.write_setting('grid_export_limit', 200))
+                    except Exception: pass          # noqa
 
 
 # ------------------------------------------------------------------------------------------------ C19
